@@ -32,7 +32,7 @@ MANIFEST = {
     "text": "For a fixed width and index tuple the embedding is linear in the gate matrix, so equality on a generic symbolic matrix is a complete proof for all gates; all ordered tuples of distinct indices are enumerated for every width up to 4 (5 thorough). Product order and simulator threading are decided on circuits of generic non-commuting matrices, for which any reordering changes the result. Unbounded width / length is not reached (bound stated).",
     "note": "Trusted: the exact domain's reading of numpy/sympy kron, @, eye, zeros, transpose, column assignment; bin/zfill as executed by CPython. Bound: register width <= 4 (5), circuits of <= 4 operations.",
 }
-TRUSTED = ["vfw/trig.py exact matrices as the meaning of numpy/sympy matrix code", "shadow execution of the real module text", "itertools.groupby / functools.reduce executed natively"]
+TRUSTED = ["props/C01append.py, C01ctor.py: abstract circuit model of vfw/cmodel.py (operations as opaque objects with uninterpreted qubit tuples); max / min over a nested generator read as: bounds every element and is one of them", "vfw/trig.py exact matrices as the meaning of numpy/sympy matrix code", "shadow execution of the real module text", "itertools.groupby / functools.reduce executed natively"]
 ASSUMPTIONS = ["bounded in register width (4 quick / 5 thorough) and circuit length; complete in the gate matrices (generic symbolic entries) and index tuples",
                "numeric (float) arithmetic treated as exact in the symbolic part; the float path is compared natively"]
 EXTRA = {"explanation": "matrix identities generated from the current text of _unitary_tools.py/_gates.py/_circuit.py and the simulators via Engine M"}
